@@ -340,6 +340,8 @@ def make_job(rng, kind_counts, tier):
     # expressions with a non-constant divisor: the checker has no rounding tolerance for them, so they are
     # generated with integer coefficients and enough digits to print the constants exactly
     if any(G.has_nonconst_div(c if entry == "expr" else ("-", c[1], c[2])) for c in conds + assumptions):
+        if entry == "str" and d < 3:
+            return None          # str() prints with the library's default decimals: they cannot be raised
         d = max(d, 3)
         if not all(exactly_printable(c, d) for c in conds + assumptions):
             return None
